@@ -617,12 +617,15 @@ func (c *Client) SendAndRead(ctx context.Context, dest *net.UDPAddr, p *dhcpv4.D
 		c.logger.PrintMessage("sent message", p)
 		defer rem()
 
+		// Arm the per-try timer once: traffic the matcher rejects must not
+		// postpone this try's deadline.
+		deadline := time.After(timeout)
 		for {
 			select {
 			case <-c.done:
 				return ErrNoResponse
 
-			case <-time.After(timeout):
+			case <-deadline:
 				return errDeadlineExceeded
 
 			case <-ctx.Done():
